@@ -73,6 +73,37 @@ func init() {
 		}
 		return "", ""
 	})
+	// A Marshal that is refused leaves the structure as it was: args (structure, fields, index of a string field).
+	// The string field is first given a value Marshal refuses (a buffer longer than the 16-bit length, or a
+	// format code that does not exist); after the refusal the intended fields are assigned and Marshal must give
+	// the bytes a pristine structure gives for them.
+	Oracle("c04.marshal_after_refusal", func(a []Val) (string, string) {
+		name := a[0].Str()
+		i := int(a[2].Int())
+		good := a[1]
+		for _, badStr := range []Val{L(U(1), U(0), B(make([]byte, 70000))), L(U(0x77), U(3), B([]byte("abc")))} {
+			bad := L(good.L...)
+			if len(bad.L[i].L) == 1 { // OEM_STRING wraps an SMB_STRING
+				bad.L[i] = L(badStr)
+			} else {
+				bad.L[i] = badStr
+			}
+			x := smbNew(name)
+			cmdSet(x, bad)
+			if _, err := x.Marshal(); err == nil {
+				continue // this structure does not refuse the value (it overrides the format, truncates ...)
+			}
+			cmdSet(x, good)
+			b1, err1 := x.Marshal()
+			y := smbNew(name)
+			cmdSet(y, good)
+			b2, err2 := y.Marshal()
+			if (err1 == nil) != (err2 == nil) || !bytes.Equal(b1, b2) {
+				return "C04/" + name + "/marshal-after-refusal", fmt.Sprintf("%s: after a refused Marshal (field %s), Marshal of %s gives %x; a pristine structure gives %x", name, cmdFieldNames(x)[i], good.String(), b1, b2)
+			}
+		}
+		return "", ""
+	})
 	// Slots: changing one fixed-width field changes only a contiguous run of bytes no wider than the
 	// field: args (structure, fields, field index, new value)
 	Oracle("c04.slot", func(a []Val) (string, string) {
@@ -132,6 +163,13 @@ func genC04(c *Ctx) {
 				fields = genFieldsMode(r, name, 2) // the smallest in-domain structure
 			}
 			c.Check("c04.roundtrip", S(name), fields)
+			if i < 2 {
+				for k, fv := range cmdFieldValues(smbNew(name)) {
+					if tn := fv.Type().Name(); tn == "SMB_STRING" || tn == "OEM_STRING" {
+						c.Check("c04.marshal_after_refusal", S(name), fields, I(int64(k)))
+					}
+				}
+			}
 			for k := range fields.L {
 				c.Check("c04.field_roundtrip", S(name), fields, I(int64(k)))
 			}
